@@ -99,6 +99,31 @@ static void op_tisapprox(Ctx& c) {
   o.end();
 }
 
+// ---- beyond the listed properties: the vector-space structure of tangents, Jacobian*Tangent, utilities, Random()
+static void op_tarith(Ctx& c) {
+  T a = draw_tangent<G>(c.thc, c.linc, "generic", c.r), b = draw_tangent<G>("generic", c.linc, "generic", c.r);
+  S k = (S)c.r.u(-3, 3); if (k == (S)0) k = (S)0.5;
+  typename G::Jacobian J; for (int i = 0; i < J.rows(); ++i) for (int j = 0; j < J.cols(); ++j) J(i, j) = (S)c.r.u(-2, 2);
+  T pe = a; pe += b; T me = a; me -= b; T te = a; te *= k; T de = a; de /= k;
+  HEAD("tarith") o.vec("t", a.coeffs()); o.vec("s", b.coeffs()); o.sc("k", k); o.mat("J", J);
+  o.vec("add", (a + b).coeffs()); o.vec("sub", (a - b).coeffs()); o.vec("neg", (-a).coeffs()); o.vec("muls", (a * k).coeffs()); o.vec("smul", (k * a).coeffs());
+  o.vec("divs", (a / k).coeffs()); o.vec("pe", pe.coeffs()); o.vec("me", me.coeffs()); o.vec("te", te.coeffs()); o.vec("de", de.coeffs());
+  o.vec("Jt", (J * a).coeffs()); o.vec("zero", T::Zero().coeffs());
+  o.end();
+}
+static void op_misc(Ctx& c) {
+  HEAD("misc")
+  std::vector<double> th, res; std::vector<long> ks;
+  for (int i = 0; i < 12; ++i) { double x = i < 4 ? c.r.u(-10, 10) : i < 8 ? c.r.u(-1e4, 1e4) : (i == 8 ? M_PI : i == 9 ? -M_PI : i == 10 ? 3 * M_PI : 0.0);
+    S r = manif::pi2pi((S)x); th.push_back((double)(S)x); res.push_back((double)r); ks.push_back(std::lround(((double)(S)x - (double)r) / (2 * M_PI))); }
+  o.key("th"); std::fputc('[', o.f); for (size_t i = 0; i < th.size(); ++i) { if (i) std::fputc(',', o.f); o.bits(th[i]); } std::fputc(']', o.f);
+  o.key("wrapped"); std::fputc('[', o.f); for (size_t i = 0; i < res.size(); ++i) { if (i) std::fputc(',', o.f); o.bits(res[i]); } std::fputc(']', o.f);
+  o.key("turns"); std::fputc('[', o.f); for (size_t i = 0; i < ks.size(); ++i) std::fprintf(o.f, "%s%ld", i ? "," : "", ks[i]); std::fputc(']', o.f);
+  S d = (S)c.r.u(-720, 720); o.sc("deg", d); o.sc("rad", manif::toRad(d)); o.sc("deg2", manif::toDeg(manif::toRad(d)));
+  G X = G::Random(); T t = T::Random(); o.vec("a", X.coeffs()); o.vec("rt", t.coeffs());
+  o.end();
+}
+
 int main(int argc, char** argv) {
   if (argc < 4) return 2; install_terminate();
   auto plan = read_plan(argv[1]); out().open(argv[2]); uint64_t seed = std::strtoull(argv[3], 0, 10); long ln = 0;
@@ -109,7 +134,7 @@ int main(int argc, char** argv) {
     int reps = std::max(1, std::atoi(pl[10].c_str())); const std::string& op = pl[0];
     for (int k = 0; k < reps; ++k) {
       if (op == "interp") op_interp(c); else if (op == "phi") { op_phi(c); break; } else if (op == "avg") op_avg(c);
-      else if (op == "tisapprox") op_tisapprox(c);
+      else if (op == "tisapprox") op_tisapprox(c); else if (op == "tarith") op_tarith(c); else if (op == "misc") op_misc(c);
       else { std::fprintf(stderr, "unknown op %s\n", op.c_str()); return 3; }
     }
   }
